@@ -6,9 +6,9 @@ THEOREMS = ['Feox.C02.ack_durable', 'Feox.C02.acked_delete_gone', 'Feox.C02.acke
 
 
 def run(ctx):
-    return proto_check(ctx, MODULE, THEOREMS, ['crash'], ['workloads=4', 'budget=8'], ['workloads=20', 'budget=40'], ['C02'], "acknowledged data did not survive a crash", [
+    return proto_check(ctx, MODULE, THEOREMS, ['crash', 'hazard'], ['workloads=4', 'budget=8', 'hazards=3'], ['workloads=20', 'budget=40', 'hazards=20'], ['C02'], "acknowledged data did not survive a crash", [
         "kernel / file system: a write either fails or lands; a completed fsync makes every earlier write durable; a crash loses or tears (512 B) any subset of the un-synced writes only",
         "TornDetect: a torn journal slot / metadata block fails its checksum or equals the old or the new image (DESIGN.md section 2) — a hypothesis, not an axiom",
         "the abstract disk (Feox.Proto.Disk) is related to bytes by the Lean reader Feox.Fmt.recoverImage, itself compared with the real recovery on every crash image of this run",
         "faults are injected at the I/O hook (synchronous path; io_uring disabled), not in the kernel",
-    ], lambda op: op.startswith("dur "))
+    ], lambda op: op.startswith("dur ") or op.startswith("txn "))
